@@ -115,7 +115,7 @@ type liveListener struct {
 	start  chan struct{} // stalled readers wait for this
 }
 
-const watchdog = 3 * time.Second
+const watchdog = 2 * time.Second
 
 func (l *liveListener) reader() {
 	defer close(l.done)
@@ -320,8 +320,8 @@ func runScenario(sc Scenario) (res Result) {
 			go func() {
 				defer wg.Done()
 				time.Sleep(d)
-				ok, pn := subdrv.Call(4*watchdog, func() {
-					ctx, cancel := context.WithTimeout(context.Background(), 3*watchdog)
+				ok, pn := subdrv.Call(2*watchdog, func() {
+					ctx, cancel := context.WithTimeout(context.Background(), 3*watchdog/2)
 					defer cancel()
 					switch a.Kind {
 					case "explicit":
@@ -358,6 +358,9 @@ func runScenario(sc Scenario) (res Result) {
 			delete(failCid, k)
 		}
 		failMu.Unlock()
+		if len(res.Failures) > 0 {
+			break // something hung or went missing: do not pile more rounds on top
+		}
 	}
 	_ = failCid
 	// cancellations scheduled after the last round
@@ -847,13 +850,21 @@ func childMain() {
 	out = parts[4]
 	base := vlib.NewRand(seed).Fork("random-scenarios")
 	var rs []Result
+	failed := 0
 	for i := 0; i < n; i++ {
 		s := base.Uint64()
 		if i%workers != w {
 			continue
 		}
 		sc := genRandom(vlib.NewRand(s), s)
-		rs = append(rs, runScenario(sc))
+		r := runScenario(sc)
+		rs = append(rs, r)
+		if len(r.Failures) > 0 {
+			failed++
+			if failed >= 3 {
+				break // enough replays; a hung implementation makes every further scenario slow
+			}
+		}
 	}
 	js, _ := json.Marshal(rs)
 	if err := os.WriteFile(out, js, 0o644); err != nil {
